@@ -85,13 +85,16 @@ func (r *dataSetRdb) Close() {
 	if r.rwRef.Load() == 0 {
 		return
 	}
+	// closing a reader or the writer calls back into DelReader / DelWriter, which take the lock
 	r.mux.Lock()
-	defer r.mux.Unlock()
-	if r.writer != nil {
-		r.writer.Close()
+	writer := r.writer
+	readers := append([]*RdbReader(nil), r.readers...)
+	r.mux.Unlock()
+	if writer != nil {
+		writer.Close()
 	}
-	for _, r := range r.readers {
-		r.Close()
+	for _, rd := range readers {
+		rd.Close()
 	}
 }
 
